@@ -7,6 +7,7 @@ from ..astutil import (call_name, calls_in, conjuncts, dotted, enclosing_tests,
 from ..cfg import CFG, ENTRY, EXIT, RAISE
 from ..report import RuleDef
 from ..src import AnalysisError
+from ..vg import Tup as Tup_
 
 FORMATS = ('ds9', 'crtf', 'fits')
 
@@ -258,6 +259,20 @@ def r2(ctx):
                             if i == first:
                                 continue
                             late.append(c)
+        # a text-mode file encodes while it writes: an unencodable character raises after the destination was truncated
+        textmode = []
+        for c in creates:
+            if (call_name(c) or '') == 'open':
+                mode = c.args[1] if len(c.args) > 1 else next((k.value for k in c.keywords if k.arg == 'mode'), None)
+                if isinstance(mode, ast.Constant) and isinstance(mode.value, str) and 'b' not in mode.value:
+                    textmode.append(c)
+        if textmode and not late:
+            ctx.bad(fi.qualname, 'encode-after-open',
+                    f'{fmt} writer: `{norm(textmode[0])}` opens the destination in text mode, so the serialised text is '
+                    'encoded while it is written: a character the encoding cannot represent (e.g. a lone surrogate in a '
+                    'region text) raises UnicodeEncodeError after the existing file was truncated; encode before opening '
+                    'and write bytes', fi.loc(textmode[0]))
+            continue
         if late:
             ctx.bad(fi.qualname, 'work-after-open',
                     f'{fmt} writer: `{norm(late[0])}` runs after the destination was '
@@ -441,6 +456,62 @@ def r4b(ctx):
             ctx.ok(f'{ident.qualname}:semantics', 'write: extension; read: str+extension first; other methods: False')
 
 
+def r4c(ctx):
+    """the FITS reader finds the region table by its extension name: the header handed to the table HDU carries
+    EXTNAME=REGION on every path, also when the caller supplies a header."""
+    from ..vg import App, Const, DictV, Evaluator, Ite, Obj, show, walk_terms
+    m = ctx.model
+    wf = m.registered('write', 'fits')
+    rmod = m.modules['regions.io.fits.read']
+    want = None
+    for fi in rmod.functions.values():
+        for n in ast.walk(fi.node):
+            if isinstance(n, ast.Constant) and isinstance(n.value, str) and 'EXTNAME' in n.value and '"' in n.value:
+                mm = re.search(r'"(\w+)"', n.value)
+                if mm:
+                    want = mm.group(1)
+    ctx.need(want is not None, 'fits read', 'required extension name not found in the reader')
+    ser = m.registered('serialize', 'fits')
+    ev = Evaluator(m, opaque_funcs={ser.qualname})
+    hdr = Obj('Header', {}, 'header')
+    hdr.typed = False
+    out = ev.run(wf, [Obj('list', {}, 'regions'), Obj('str', {}, 'filename')], {'header': hdr, 'overwrite': Const(True)})
+    hdus = []
+    for name in ('bin_table',):
+        v = out.env.get(name)
+        if v is not None:
+            hdus += [x for x in walk_terms(v) if isinstance(x, App) and x.name.endswith('BinTableHDU')]
+    ctx.need(hdus, wf.qualname, 'table HDU construction not found')
+    h = None
+    for a in hdus[0].args:
+        if isinstance(a, Tup_) and len(a.items) == 2 and isinstance(a.items[0], Const) and a.items[0].v == 'header':
+            h = a.items[1]
+    ctx.need(h is not None, wf.qualname, 'header argument of the table HDU not found')
+    arms = []
+
+    def split(t):
+        if isinstance(t, Ite):
+            c = show(t.cond, 400)
+            if "'EXTNAME' notin" in c and not c.startswith('not '):
+                split(t.a)        # the other arm already has an EXTNAME: the caller chose the name
+            elif "'EXTNAME' in" in c and not c.startswith('not '):
+                split(t.b)
+            else:
+                split(t.a)
+                split(t.b)
+        else:
+            arms.append(t)
+    split(h)
+    bad = [a for a in arms if f"'EXTNAME'" not in show(a, 3000) or want not in show(a, 3000)]
+    if bad:
+        ctx.bad(wf.qualname, 'extname-missing',
+                f'on the path where the caller supplies a header the table is written with header {show(bad[0], 120)}: '
+                f'nothing guarantees EXTNAME="{want}", which the reader requires — write(..., header={{"FOO": 1}}) succeeds '
+                'and the file cannot be read back', wf.loc())
+    else:
+        ctx.ok(wf.qualname + ':extname', f'every header reaching the table HDU carries EXTNAME={want}')
+
+
 def r5(ctx):
     m = ctx.model
     reg = m.cls('RegionsRegistry')
@@ -515,6 +586,7 @@ RULES = [
     RuleDef('R3', 'overwrite parameter default False, read and forwarded', r3, 6),
     RuleDef('R4', 'identifier extension/signature tables agree with writers', r4, 6),
     RuleDef('R4b', 'identifier semantics (symbolic): write/read/other-method outcomes', r4b, 3),
+    RuleDef('R4c', 'FITS table is written under the extension name the reader looks for', r4c, 1),
     RuleDef('R5', 'registry raises IORegistryError for unknown/unidentified formats', r5, 6),
     RuleDef('R6', 'identification and I/O keep no state between calls (C13.R2 on registry/io)', r6, 1),
 ]
